@@ -612,6 +612,15 @@ def eval_term(t, env):
     raise CannotEval(show(t))
 
 
+def const_fold(t):
+    """the integer a closed arithmetic term evaluates to (`6 - 1`, `1 << 20`), or None"""
+    try:
+        v = eval_term(strip_casts(t), {})
+    except (CannotEval, Exception):
+        return None
+    return v if isinstance(v, int) and not isinstance(v, bool) else None
+
+
 def walk_branches(body, start, env, stop):
     """follow the CFG from `start`, deciding switches by evaluating their condition under env, until stop(bb)
     returns a label. Returns (label, path)."""
